@@ -10,6 +10,7 @@ CONSTANTS
   LoopForever = FALSE
   FastPathChecksAtomicQ = TRUE
   Sleeper = TRUE
+  SRun = FALSE
 INVARIANT Safety
 POSTCONDITION TraceAccepted
 CHECK_DEADLOCK FALSE
